@@ -6,6 +6,7 @@ import (
 	"runtime"
 	"sort"
 	"strings"
+	"sync"
 	"time"
 
 	"verif/sim/simnet"
@@ -611,6 +612,7 @@ func worldRelease(w *World) {
 		// the conflict is gone the identical registration must go through
 		o := env.newClient("o", 0)
 		o.login("")
+		keepAlive(o, make(chan struct{}))
 		ptyp := []string{"http", "http", "https", "tcpmux"}[w.Knob("partial.type", 0, 3)]
 		viaSub := w.KnobBool("partial.conflict_on_subdomain", 35)
 		mkp := func(name string, doms []string, sub string) M {
@@ -702,6 +704,68 @@ func worldRelease(w *World) {
 			} else {
 				cur.CloseProxy(mstr(f, "proxy_name"))
 				syncCtl(cur)
+			}
+		}
+		// (c) the name is taken by somebody else while the registration is under way: the refused registration gives
+		// back what it had taken and nothing of the winner's - the winner keeps name, port and service
+		if w.KnobBool("partial.name_race", 60) {
+			w.Probe("release.partial_name_race")
+			// two allowed ports nobody holds at this point (a server-chosen port of the set may be anywhere)
+			var freeP []int
+			for p := 20005; p <= 20008 && len(freeP) < 2; p++ {
+				if !env.frpsTCPPorts()[p] {
+					freeP = append(freeP, p)
+				}
+			}
+			rounds := w.KnobPick("partial.name_race_rounds", 1, 3, 6)
+			if len(freeP) < 2 {
+				freeP, rounds = []int{0, 0}, 0
+			}
+			pA, pB := freeP[0], freeP[1]
+			for round := 0; round < rounds; round++ {
+				name := fmt.Sprintf("nr%d", round)
+				var wg sync.WaitGroup
+				var r1, r2 M
+				var g1, g2 bool
+				wg.Add(2)
+				go func() {
+					defer wg.Done()
+					r1, g1 = cur.register(M{"proxy_name": name, "proxy_type": "tcp", "remote_port": pA})
+				}()
+				go func() {
+					defer wg.Done()
+					r2, g2 = o.register(M{"proxy_name": name, "proxy_type": "tcp", "remote_port": pB})
+				}()
+				wg.Wait()
+				ok1, ok2 := g1 && mstr(r1, "error") == "", g2 && mstr(r2, "error") == ""
+				w.Check("C10.partial-failure-releases")
+				if ok1 == ok2 {
+					if ok1 {
+						viol("partial", "name-given-twice", "two concurrent registrations of the name %s were both accepted", name)
+					}
+					break
+				}
+				win, lose, wport, lport := cur, o, pA, pB
+				if ok2 {
+					win, lose, wport, lport = o, cur, pB, pA
+				}
+				// the loser's port is free again, the winner's is bound and keeps its name
+				if rr, got := lose.register(M{"proxy_name": name + "-other", "proxy_type": "tcp", "remote_port": lport}); !got || mstr(rr, "error") != "" {
+					viol("partial", "port-leaked-after-name-conflict", "registration of %s refused because the name was taken meanwhile; its port %d is not free afterwards: %v", name, lport, rr)
+				} else {
+					lose.CloseProxy(name + "-other")
+					syncCtl(lose)
+				}
+				if rr, got := lose.register(M{"proxy_name": name, "proxy_type": "tcp", "remote_port": lport}); got && mstr(rr, "error") == "" {
+					viol("partial", "winner-lost-its-name", "two clients asked for the name %s at the same moment, one was refused; afterwards the same name was registered again while the winner's proxy (port %d) is still live", name, wport)
+					lose.CloseProxy(name)
+					syncCtl(lose)
+				}
+				if !env.frpsTCPPorts()[wport] {
+					viol("partial", "winner-lost-its-port", "after a refused concurrent registration of the same name the winner's port %d is no longer bound", wport)
+				}
+				win.CloseProxy(name)
+				syncCtl(win)
 			}
 		}
 		checkBystander("after-partial")
